@@ -23,6 +23,18 @@
 //!     OPNAME = none | (some "X")         sent as operationName AND operation_name on GET
 //!     VARS   = none | (v N)              variables {"v": N}
 //!     QUIRK  = ok | noquery | badvars    GET only: no `query` key / `variables` is not JSON
+//! Case, stream `getbody` (the body dimension: what a GET does with a request carried in its BODY)
+//!   (httpb INTEG ROUTE EXEC METHOD ACCEPT QS CT CLEN BODY)
+//!     METHOD = get | post | head | put
+//!     QS     = noq          no `?` at all          (`GET /single`)
+//!            | emptyq       an empty query string  (`GET /single?`)
+//!            | junk         a query string without any GraphQL key (`?foo=1&bar`)
+//!            | (qs REQ)     REQ rendered as query string (QUIRK noquery: no `query=` key)
+//!     CT     = json | gqlresp | multipart | absent    Content-Type of the body: application/json,
+//!              application/graphql-response+json, multipart/form-data (GraphQL multipart request:
+//!              parts `operations` and `map`), no Content-Type header
+//!     CLEN   = cl | nocl    with / without a Content-Length header
+//!     BODY   = empty | (single REQ) | (batch REQ…)     what the body carries, encoded as CT says
 //! Output
 //!   (resp CLASS OUT (log ENTRY…))   CLASS = status / 100
 //!     OUT   = (single R) | (batch R…) | (multi R…) | none      R = (r err|noerr)           has a non-empty `errors` member
@@ -291,11 +303,77 @@ fn json_of(r: &Req) -> serde_json::Value {
 }
 
 struct Wire {
-    get: bool,
-    path: String, // "/svc" | "/single" | "/batch"
+    method: &'static str, // "GET" | "POST" | "HEAD" | "PUT"
+    path: String,         // "/svc" | "/single" | "/batch"
     query: Option<String>,
     accept_mixed: bool,
+    content_type: Option<String>,
+    content_length: bool,
     body: String,
+    /// label of the query-string shape, for the distribution counters
+    qs_kind: &'static str,
+}
+
+const BOUNDARY: &str = "agvB";
+
+/// GraphQL multipart request: parts `operations` (the JSON request or batch) and `map`
+fn multipart_of(json: Option<&str>) -> String {
+    let mut o = String::new();
+    if let Some(j) = json {
+        o.push_str(&format!("--{BOUNDARY}\r\nContent-Disposition: form-data; name=\"operations\"\r\n\r\n{j}\r\n"));
+        o.push_str(&format!("--{BOUNDARY}\r\nContent-Disposition: form-data; name=\"map\"\r\n\r\n{{}}\r\n"));
+    }
+    o.push_str(&format!("--{BOUNDARY}--\r\n"));
+    o
+}
+
+fn json_body(body: &Sexp) -> Option<String> {
+    match body.tag() {
+        Some("single") => Some(json_of(&parse_req(&body.args()[0])).to_string()),
+        Some("batch") => Some(serde_json::Value::Array(body.args().iter().map(|r| json_of(&parse_req(r))).collect()).to_string()),
+        _ => None,
+    }
+}
+
+/// the `httpb` cases: method, query-string shape, content type, Content-Length and body vary freely
+fn wire_of_b(case: &Sexp) -> (String, String, Wire) {
+    let a = case.args();
+    let integ = a[0].as_atom().unwrap().to_string();
+    let route = a[1].as_atom().unwrap();
+    let exec = a[2].as_atom().unwrap().to_string();
+    let method = match a[3].as_atom().unwrap() {
+        "get" => "GET",
+        "post" => "POST",
+        "head" => "HEAD",
+        "put" => "PUT",
+        m => panic!("unknown method {m}"),
+    };
+    let accept_mixed = a[4].as_atom().unwrap() == "mixed";
+    let (query, qs_kind) = match (&a[5], a[5].as_atom()) {
+        (_, Some("noq")) => (None, "noq"),
+        (_, Some("emptyq")) => (Some(String::new()), "emptyq"),
+        (_, Some("junk")) => (Some("foo=1&bar".to_string()), "junk"),
+        (q, _) if q.tag() == Some("qs") => {
+            let r = parse_req(&q.args()[0]);
+            let kind = if r.quirk == "noquery" { "qs_noquery" } else { "qs_full" };
+            (Some(query_string(&r)), kind)
+        }
+        _ => panic!("unknown query-string shape"),
+    };
+    let json = json_body(&a[8]);
+    let (content_type, body) = match a[6].as_atom().unwrap() {
+        "json" => (Some("application/json".to_string()), json.unwrap_or_default()),
+        "gqlresp" => (Some("application/graphql-response+json".to_string()), json.unwrap_or_default()),
+        "multipart" => (Some(format!("multipart/form-data; boundary={BOUNDARY}")), multipart_of(json.as_deref())),
+        "absent" => (None, json.unwrap_or_default()),
+        c => panic!("unknown content type {c}"),
+    };
+    let content_length = a[7].as_atom().unwrap() == "cl";
+    (
+        integ,
+        exec,
+        Wire { method, path: format!("/{}", route), query, accept_mixed, content_type, content_length, body, qs_kind },
+    )
 }
 
 const MIXED: &str = "multipart/mixed; boundary=\"graphql\"; subscriptionSpec=\"1.0\", application/json";
@@ -316,10 +394,26 @@ fn wire_of(case: &Sexp) -> (String, String, Wire) {
     } else {
         (None, serde_json::Value::Array(reqs.iter().map(json_of).collect()).to_string())
     };
-    (integ, exec, Wire { get, path: format!("/{}", route), query, accept_mixed, body: text })
+    (
+        integ,
+        exec,
+        Wire {
+            method: if get { "GET" } else { "POST" },
+            path: format!("/{}", route),
+            query,
+            accept_mixed,
+            content_type: if get { None } else { Some("application/json".to_string()) },
+            content_length: false,
+            body: text,
+            qs_kind: if get { "qs" } else { "noq" },
+        },
+    )
 }
 
 impl Wire {
+    fn has_body(&self) -> bool {
+        self.method != "GET" || !self.body.is_empty()
+    }
     fn uri(&self) -> String {
         match &self.query {
             Some(q) => format!("{}?{}", self.path, q),
@@ -381,9 +475,12 @@ mod via_axum {
             .route("/single", get(single).post(single))
             .route("/batch", get(batch).post(batch))
             .with_state(exec);
-        let mut b = http::Request::builder().method(if w.get { "GET" } else { "POST" }).uri(w.uri());
-        if !w.get {
-            b = b.header("content-type", "application/json");
+        let mut b = http::Request::builder().method(w.method).uri(w.uri());
+        if let Some(ct) = &w.content_type {
+            b = b.header("content-type", ct.as_str());
+        }
+        if w.content_length {
+            b = b.header("content-length", w.body.len().to_string());
         }
         if w.accept_mixed {
             b = b.header("accept", MIXED);
@@ -420,9 +517,17 @@ mod via_actix {
                 .service(web::resource("/batch").to(batch)),
         )
         .await;
-        let mut b = if w.get { test::TestRequest::get() } else { test::TestRequest::post() }.uri(&w.uri());
-        if !w.get {
-            b = b.insert_header(("content-type", "application/json")).set_payload(w.body.clone());
+        let mut b = test::TestRequest::default()
+            .method(actix_web::http::Method::from_bytes(w.method.as_bytes()).unwrap())
+            .uri(&w.uri());
+        if let Some(ct) = &w.content_type {
+            b = b.insert_header(("content-type", ct.as_str()));
+        }
+        if w.content_length {
+            b = b.insert_header(("content-length", w.body.len().to_string()));
+        }
+        if w.has_body() {
+            b = b.set_payload(w.body.clone());
         }
         if w.accept_mixed {
             b = b.insert_header(("accept", MIXED));
@@ -458,10 +563,13 @@ mod via_poem {
             .at("/batch", batch)
             .data(exec);
         let mut b = poem::Request::builder()
-            .method(if w.get { poem::http::Method::GET } else { poem::http::Method::POST })
+            .method(poem::http::Method::from_bytes(w.method.as_bytes()).unwrap())
             .uri(w.uri().parse::<poem::http::Uri>().unwrap());
-        if !w.get {
-            b = b.header("content-type", "application/json");
+        if let Some(ct) = &w.content_type {
+            b = b.header("content-type", ct.as_str());
+        }
+        if w.content_length {
+            b = b.header("content-length", w.body.len().to_string());
         }
         if w.accept_mixed {
             b = b.header("accept", MIXED);
@@ -495,9 +603,15 @@ mod via_warp {
             },
         );
         let routes = single.or(batch);
-        let mut b = warp::test::request().method(if w.get { "GET" } else { "POST" }).path(&w.uri());
-        if !w.get {
-            b = b.header("content-type", "application/json").body(w.body.clone());
+        let mut b = warp::test::request().method(w.method).path(&w.uri());
+        if let Some(ct) = &w.content_type {
+            b = b.header("content-type", ct.as_str());
+        }
+        if w.content_length {
+            b = b.header("content-length", w.body.len().to_string());
+        }
+        if w.has_body() {
+            b = b.body(w.body.clone());
         }
         if w.accept_mixed {
             b = b.header("accept", MIXED);
@@ -540,9 +654,21 @@ mod via_rocket {
             .mount("/", routes![get_single, get_converted, post_single, post_batch]);
         let client = Client::untracked(rocket).await.expect("rocket client");
         let uri = w.uri();
-        let mut b = if w.get { client.get(uri) } else { client.post(uri) };
-        if !w.get {
-            b = b.header(Header::new("content-type", "application/json")).body(w.body.clone());
+        let method = match w.method {
+            "GET" => rocket::http::Method::Get,
+            "POST" => rocket::http::Method::Post,
+            "HEAD" => rocket::http::Method::Head,
+            _ => rocket::http::Method::Put,
+        };
+        let mut b = client.req(method, uri);
+        if let Some(ct) = &w.content_type {
+            b = b.header(Header::new("content-type", ct.clone()));
+        }
+        if w.content_length {
+            b = b.header(Header::new("content-length", w.body.len().to_string()));
+        }
+        if w.has_body() {
+            b = b.body(w.body.clone());
         }
         if w.accept_mixed {
             b = b.header(Header::new("accept", MIXED));
@@ -558,7 +684,8 @@ mod via_rocket {
 // ------------------------------------------------------------------ run
 
 fn run(case: &Sexp, dist: &mut Dist) -> Sexp {
-    let (integ, exec_kind, wire) = wire_of(case);
+    let extended = case.tag() == Some("httpb");
+    let (integ, exec_kind, wire) = if extended { wire_of_b(case) } else { wire_of(case) };
     let log: Log = Default::default();
     let exec = make_exec(&exec_kind, &log);
     let (status, ct, body) = match integ.as_str() {
@@ -579,16 +706,28 @@ fn run(case: &Sexp, dist: &mut Dist) -> Sexp {
     if std::env::var_os("AGV_DEBUG").is_some() {
         eprintln!("{} {} {:?}", status, ct, String::from_utf8_lossy(&body));
     }
-    let (class, out) = out_of(status, &ct, &body);
+    let (class, out) = if wire.method == "HEAD" && body.is_empty() {
+        // the answer to a HEAD request has no body (axum, rocket strip it)
+        (num(status / 100), atom("none"))
+    } else {
+        out_of(status, &ct, &body)
+    };
     let entries = log.lock().unwrap().clone();
     let ran_mutation = entries.iter().any(|e| e.tag() == Some("m"));
     let ran_query = entries.iter().any(|e| e.tag() == Some("q"));
-    let m = if wire.get { "get" } else { "post" };
-    dist.hit(&format!(
-        "impl_{}_{}",
-        m,
-        if ran_mutation { "ran_mutation" } else if ran_query { "ran_query" } else { "ran_nothing" }
-    ));
+    let m = wire.method.to_ascii_lowercase();
+    let ran = if ran_mutation { "ran_mutation" } else if ran_query { "ran_query" } else { "ran_nothing" };
+    if extended {
+        // did the mutation counter move?  per method, query-string shape and body content
+        let carries = match case.args()[8].tag() {
+            None => "body_empty",
+            Some(_) if case.args()[8].to_string().contains("(op mutation") => "body_with_mutation",
+            Some(_) => "body_without_mutation",
+        };
+        dist.hit(&format!("impl_{}_{}_{}_{}", m, wire.qs_kind, carries, ran));
+    } else {
+        dist.hit(&format!("impl_{}_{}", m, ran));
+    }
     node("resp", vec![class, out, node("log", entries)])
 }
 
@@ -719,7 +858,87 @@ fn gen_req(rng: &mut Rng, dist: &mut Dist, get: bool) -> Sexp {
     node("r", vec![doc, opn, vars, atom(quirk)])
 }
 
-fn gen_case(rng: &mut Rng, _i: usize, _o: &Opts, dist: &mut Dist) -> Sexp {
+/// stream `getbody`: the request travels in the BODY; method, query-string shape, content type
+/// and Content-Length vary
+fn gen_case_b(rng: &mut Rng, dist: &mut Dist) -> Sexp {
+    let integ = *rng.pick(&["axum", "actix", "poem", "warp", "rocket"]);
+    let route = *rng.pick(routes_of(integ));
+    let exec = if rng.chance(1, 3) { "dynamic" } else { "static" };
+    let method = match rng.below(20) {
+        0..=13 => "get",
+        14..=16 => "post",
+        17..=18 => "head",
+        _ => "put",
+    };
+    let safe_method = method == "get" || method == "head";
+    let mixed = rng.chance(1, 5);
+    let qs = match rng.below(20) {
+        0..=6 if safe_method => atom("noq"),
+        0..=13 if !safe_method => atom("noq"),
+        7..=10 if safe_method => atom("emptyq"),
+        11..=13 if safe_method => atom("junk"),
+        14..=15 => atom("junk"),
+        _ => {
+            // a query string carrying a request; for GET/HEAD half of them without the `query` key
+            let (doc, opn, kind) = gen_doc(rng);
+            dist.hit(&format!("qs_{}", kind));
+            let vars = if rng.chance(1, 2) { node("v", vec![num(rng.range(-9, 99))]) } else { atom("none") };
+            let quirk = if rng.chance(1, 2) {
+                "noquery"
+            } else if rng.chance(1, 8) {
+                "badvars"
+            } else {
+                "ok"
+            };
+            node("qs", vec![node("r", vec![doc, opn, vars, atom(quirk)])])
+        }
+    };
+    let ct = match rng.below(20) {
+        0..=7 => "json",
+        8..=12 => "multipart",
+        13..=16 => "gqlresp",
+        _ => "absent",
+    };
+    let clen = if rng.chance(1, 2) { "cl" } else { "nocl" };
+    let body = match rng.below(20) {
+        0..=2 => atom("empty"),
+        3..=12 => node("single", vec![gen_req(rng, dist, false)]),
+        _ => {
+            let k = 1 + rng.below(3);
+            node("batch", (0..k).map(|_| gen_req(rng, dist, false)).collect())
+        }
+    };
+    dist.hit(&format!("integ_{}", integ));
+    dist.hit(&format!("route_{}", route));
+    dist.hit(&format!("exec_{}", exec));
+    dist.hit(&format!("method_{}", method));
+    dist.hit(&format!("qs_{}", qs.tag().or(qs.as_atom()).unwrap_or("?")));
+    dist.hit(&format!("ct_{}", ct));
+    dist.hit(&format!("clen_{}", clen));
+    dist.hit(&format!("body_{}", body.tag().or(body.as_atom()).unwrap_or("?")));
+    if mixed {
+        dist.hit("accept_multipart_mixed");
+    }
+    node(
+        "httpb",
+        vec![
+            atom(integ),
+            atom(route),
+            atom(exec),
+            atom(method),
+            atom(if mixed { "mixed" } else { "plain" }),
+            qs,
+            atom(ct),
+            atom(clen),
+            body,
+        ],
+    )
+}
+
+fn gen_case(rng: &mut Rng, _i: usize, o: &Opts, dist: &mut Dist) -> Sexp {
+    if o.stream == "getbody" {
+        return gen_case_b(rng, dist);
+    }
     let integ = *rng.pick(&["axum", "actix", "poem", "warp", "rocket"]);
     let route = *rng.pick(routes_of(integ));
     let exec = if rng.chance(1, 3) { "dynamic" } else { "static" };
